@@ -47,6 +47,12 @@ type Step struct {
 	StopOnErr bool
 	Idx       int   // index in the generated history (for replays)
 	OpIdx     []int // indices of Ops in the generated block
+	// Gen, when set, makes this a dynamic step: it is asked for one DB-level
+	// operation after another (each run and recorded as a step of its own)
+	// until it returns nil.  Verify then checks an end-to-end condition on
+	// what the operations observed and returns a description of a failure.
+	Gen    func(x *Exec) *Op
+	Verify func(x *Exec) string
 }
 
 type History struct {
